@@ -208,6 +208,68 @@ pub fn gen_broken(c: &mut Choices, corpus_files: &[(String, String)], cfg: &Brea
     (ws, log)
 }
 
+/// One type-sharing ladder: queries whose answers are small, on a 2 MiB stack.
+fn sharing_ladder(ctx: &mut Ctx, depth: usize) -> Result<(), Failure> {
+    let mut t = String::from("pub fn zladder(zv0) {\n");
+    for k in 0..depth {
+        t.push_str(&format!("  case #(zv{k}, zv{k}) {{ zv{} ->\n", k + 1));
+    }
+    t.push_str("  0\n");
+    for _ in 0..depth {
+        t.push_str("  }\n");
+    }
+    t.push_str("}\n\npub fn zuse() {\n  zladder(1)\n}\n");
+    let mut ws = Workspace::default();
+    ws.files.push(WsFile { path: "/ws/app/src/m.gleam".into(), pkg: 0, text: t.clone(), module: Some("m".into()) });
+    ws.files.push(WsFile { path: "/ws/app/gleam.toml".into(), pkg: 0, text: "name = \"app\"\n".into(), module: None });
+    ws.packages.push(crate::gen::scoped::Pkg { name: "app".into(), root: "/ws/app".into(), is_local: true, deps: vec![], toml_file: 1 });
+    let case = json!({"sharing_ladder": depth});
+    let at_fn = t.find("zladder").unwrap() as u32 + 2;
+    let at_param = t.find("zv0").unwrap() as u32 + 1;
+    let at_use = t.rfind("zladder").unwrap() as u32 + 2;
+    let at_zuse = t.find("zuse").unwrap() as u32 + 1;
+    let plan: Vec<(u32, Q)> = vec![
+        (at_use, Q::Hover),
+        (at_zuse, Q::Hover),
+        (at_fn, Q::Hover),
+        (at_param, Q::Hover),
+        (at_use, Q::Goto),
+        (at_fn, Q::Refs),
+        (at_use, Q::SigHelp),
+        (0, Q::Diagnostics),
+        (0, Q::SemTokensFull),
+        (at_param, Q::Highlight),
+    ];
+    let ws2 = ws.clone();
+    let res = std::thread::Builder::new()
+        .stack_size(2 * 1024 * 1024)
+        .spawn(move || {
+            let host = build_host(&ws2);
+            let an = host.snapshot();
+            let mut out = vec![];
+            for (pos, q) in &plan {
+                let r = run_query(&an, q, ide::FileId(0), *pos);
+                out.push((format!("{:?}@{}", q, pos), r.map(|a| a.nonempty).map_err(|e| match e { QErr::Panic(p) => p.message, QErr::Cancelled => "cancelled".to_string() })));
+            }
+            out
+        })
+        .expect("spawn")
+        .join();
+    let out = match res {
+        Ok(o) => o,
+        Err(_) => return Err(Failure::new(format!("the query thread died on a type-sharing ladder of depth {}", depth), case).sig("kind", "panic")),
+    };
+    for (q, r) in out {
+        ctx.eval();
+        if let Err(m) = r {
+            return Err(Failure::new(format!("{} panicked on a type-sharing ladder of depth {}: {}", q, depth, m), case).sig("kind", "panic").sig("panic_msg", panics::normalise(&m)));
+        }
+    }
+    ctx.class("type-sharing ladder (small answers only)");
+    ctx.nontrivial(hash_str(&format!("ladder{}", depth)));
+    Ok(())
+}
+
 fn imports_of(text: &str) -> Vec<String> {
     text.lines()
         .filter_map(|l| l.trim().strip_prefix("import "))
@@ -416,8 +478,32 @@ impl Property for C10 {
             ctx.sample("broken workspace", || json!({"breaks": log, "files": ws.files.iter().filter(|f| f.module.is_some()).map(|f| json!({"path": f.path, "text": clip(&f.text, 300)})).collect::<Vec<_>>()}));
             Ok(())
         });
+        // Types that share a sub-type at every level: `case #(v, v) { w -> case #(w, w) { .. } }`,
+        // 16-56 levels deep, the function returning something small.  Written out, the innermost
+        // variable's type has 2^depth leaves (so hovering THERE is legitimately slow and is not
+        // asked); every query whose answer is small must come back at once: an analysis that walks
+        // such a type as a tree instead of as a graph does not.
+        if !ctx.fuzzing() {
+            for depth in 16..=56usize {
+                if !ctx.mine(depth as u64) {
+                    continue;
+                }
+                let case = json!({"sharing_ladder": depth});
+                ctx.mark(&case);
+                if let Err(f) = sharing_ladder(ctx, depth) {
+                    ctx.fail(f);
+                    if ctx.stopped() {
+                        return;
+                    }
+                }
+            }
+            ctx.space("type-sharing ladders of depth 16..=56 x small-answer queries", 41);
+        }
     }
     fn replay(&self, ctx: &mut Ctx, case: &Value) -> Result<(), Failure> {
+        if let Some(d) = case.get("sharing_ladder").and_then(|d| d.as_u64()) {
+            return sharing_ladder(ctx, d as usize);
+        }
         if let Some(h) = case.get("stream").and_then(|s| s.as_str()) {
             let bytes = unhex(h);
             let mut c = Choices::new(&bytes);
